@@ -320,7 +320,7 @@ func (t *Template) Clone() (*Template, error) {
 	if err != nil {
 		return nil, err
 	}
-	ns := &nameSpace{set: make(map[string]*Template)}
+	ns := &nameSpace{set: make(map[string]*Template), cspCompatible: t.nameSpace.cspCompatible}
 	ns.esc = makeEscaper(ns)
 	ret := &Template{
 		nil,
@@ -334,6 +334,13 @@ func (t *Template) Clone() (*Template, error) {
 		src := t.set[name]
 		if src == nil || src.escapeErr != nil {
 			return nil, fmt.Errorf("html/template: cannot Clone %q after it has executed", t.Name())
+		}
+		if src.Tree == nil && src.text != t.text.Lookup(name) {
+			// Replaced by New(name) and not parsed since: the underlying set, and its
+			// clone, still hold the body of the template it replaced.
+			x.Tree = nil
+			ret.set[name] = &Template{nil, x, nil, ret.nameSpace}
+			continue
 		}
 		x.Tree = x.Tree.Copy()
 		ret.set[name] = &Template{
